@@ -786,8 +786,17 @@ class Engine:
             model = self._get_model()
         return self.witness_fn(model) if self.witness_fn else None
 
-    def require(self, cond, label, detail=""):
-        """Obligation: `cond` must hold for every input on this path."""
+    def require(self, cond, label, detail="", stop=True):
+        """Obligation: `cond` must hold for every input on this path.  With stop=False a failing
+        obligation is recorded as a candidate and the path continues under the assumption that it holds
+        (used where a known defect would otherwise hide the obligations that follow)."""
+        if not stop:
+            try:
+                return self.require(cond, label, detail)
+            except PathStop:
+                if isinstance(cond, SBool):
+                    self.assume(cond)
+                return False
         self.stats["obligations"] += 1
         if isinstance(cond, SBool):
             r = self._check(z3.Not(cond.e))
